@@ -314,9 +314,23 @@ var reDim = regexp.MustCompile(`(?i)(ntax|nchar)\s*=\s*([0-9]+)`)
 // nexusTaxLabels reads the names declared by the TAXLABELS command of a TAXA block, under
 // the same restrictions as nexusDims (no comment bracket, known blocks only); ok is false
 // when the text has no such command or more than one
+// nexusPlain tells whether the independent Nexus readers below may judge the text: no comment
+// bracket, no NUL, and no byte that Go's strings.Fields would take for a blank while goalign's
+// lexer takes it for a letter (vertical tab, form feed, other control characters, non-ASCII
+// bytes): there "the declaration" is not the same text for the two readers
+func nexusPlain(s string) bool {
+	for i := 0; i < len(s); i++ {
+		c := s[i]
+		if c == '[' || c == ']' || c >= 0x80 || (c < 0x20 && c != '\t' && c != '\n' && c != '\r') {
+			return false
+		}
+	}
+	return true
+}
+
 func nexusTaxLabels(data []byte) (labels []string, ok bool) {
 	s := string(data)
-	if strings.ContainsAny(s, "[]") || strings.ContainsRune(s, 0) {
+	if !nexusPlain(s) {
 		return nil, false
 	}
 	block := ""
@@ -330,7 +344,16 @@ func nexusTaxLabels(data []byte) (labels []string, ok bool) {
 		low := strings.ToLower(cmd)
 		if m := reBegin.FindStringSubmatch(cmd); m != nil {
 			block = strings.ToLower(m[1])
+			switch block {
+			case "data", "characters", "taxa":
+			default:
+				// an unknown block is skipped up to its END, with whatever it holds
+				return nil, false
+			}
 			continue
+		}
+		if strings.HasPrefix(low, "begin") {
+			return nil, false
 		}
 		if low == "end" || low == "endblock" {
 			block = ""
@@ -348,7 +371,7 @@ func nexusTaxLabels(data []byte) (labels []string, ok bool) {
 
 func nexusDims(data []byte) (ntax, nchar int64, okTax, okChar bool) {
 	s := string(data)
-	if strings.ContainsAny(s, "[]") || strings.ContainsRune(s, 0) {
+	if !nexusPlain(s) {
 		return
 	}
 	block := ""
